@@ -220,7 +220,7 @@ func c08JudgeSig(c *mon.Ctx, cs *c06Case) {
 		return
 	}
 	c.Eval(1)
-	tx := cs.Tx.Build()
+	tx := cs.Tx.BuildShared()
 	unlock0 := append([]byte{}, cs.Tx.Ins[cs.Idx].Unlock...)
 	lockBuf := append([]byte{}, cs.Lock...)
 	prev := &bt.Output{Satoshis: cs.Sats, LockingScript: bscript.NewFromBytes(lockBuf)}
